@@ -269,6 +269,69 @@ def carry(rc):
                             "ignores an observation", construct=f"{name} carried evidence merge guard")
 
 
+@rule("C17.helpers", "slice helpers: the clique CONTAINING the nodes, the marginal KEEPING the nodes (out of place), the product of ALL clique potentials reduced on a private factor", floor=3)
+def helpers(rc):
+    from ..util import resolved_fn
+    repo = rc.repo
+    # _get_clique: a clique that contains every given node
+    f = repo.func(DI, "DBNInference._get_clique")
+    jt, nodes = f.params[1], f.params[2]
+    r = resolved_fn(f)
+    rets = [x.value for x in walk_no_nested(r) if isinstance(x, ast.Return) and x.value is not None]
+    ok = False
+    for v in rets:
+        comp = v.value if isinstance(v, ast.Subscript) else (v.args[0] if isinstance(v, ast.Call) and call_name(v) == "next" and v.args else None)
+        if isinstance(comp, (ast.ListComp, ast.GeneratorExp)) and len(comp.generators) == 1 and comp.generators[0].ifs:
+            g = comp.generators[0]
+            cv = dotted(g.target)
+            src_ok = tm.is_(g.iter, f"{jt}.nodes()") is not None or tm.is_(g.iter, f"{jt}.nodes") is not None
+            tests = [True if any(tm.is_(t, pat) is not None for pat in (f"set({nodes}).issubset({cv})", f"set({cv}).issuperset({nodes})", f"set({nodes}) <= set({cv})")) else None for t in g.ifs]
+            first = isinstance(v, ast.Call) or (isinstance(v.slice, ast.Constant) and v.slice.value == 0)
+            rc.ob(f"_get_clique: `{norm(v, 110)}`")
+            if src_ok and len(tests) == 1 and tests[0] is not None and dotted(comp.elt) == cv and first:
+                ok = True
+    if not ok:
+        rc.fail(f, f.node, "the interface clique must be a clique of the given junction tree that CONTAINS all the given nodes (nodes ⊆ clique)", construct="_get_clique containment")
+    # _marginalize_factor: sum out scope - nodes, out of place
+    f = repo.func(DI, "DBNInference._marginalize_factor")
+    nodes, fac = f.params[1], f.params[2]
+    r = resolved_fn(f)
+    rets = [x.value for x in walk_no_nested(r) if isinstance(x, ast.Return) and x.value is not None]
+    ok = False
+    for v in rets:
+        rc.ob(f"_marginalize_factor: `{norm(v, 110)}`")
+        for pat in (f"{fac}.marginalize(list(set({fac}.scope()).difference({nodes})), inplace=False)", f"{fac}.marginalize(list(set({fac}.scope()) - set({nodes})), inplace=False)",
+                    f"{fac}.marginalize([_v for _v in {fac}.scope() if _v not in {nodes}], inplace=False)", f"{fac}.marginalize(set({fac}.scope()).difference({nodes}), inplace=False)"):
+            if tm.is_(v, pat) is not None:
+                ok = True
+    if not ok:
+        rc.fail(f, f.node, "the marginal over the given nodes sums out exactly the other variables of the factor's scope, out of place", construct="_marginalize_factor keeps the nodes")
+    # _get_factor: product of ALL potentials of the tree; evidence reduced on that fresh product, by (variable, state) pairs, only for variables in its scope
+    f = repo.func(DI, "DBNInference._get_factor")
+    bp_, ev = f.params[1], f.params[2]
+    prods = calls_named(f, "factor_product")
+    okp = len(prods) == 1 and tm.is_(prods[0], f"factor_product(*{bp_}.junction_tree.get_factors())") is not None
+    rc.ob(f"_get_factor: product `{norm(prods[0], 90) if prods else None}` over all clique potentials: {okp}")
+    if not okp:
+        rc.fail(f, f.node, "the joint of a slice is the product of ALL clique potentials of its junction tree", construct="_get_factor product of all")
+    else:
+        pn = {t.id for n in walk_no_nested(f.node) if isinstance(n, ast.Assign) and n.value is prods[0] for t in n.targets if isinstance(t, ast.Name)}
+        for s_ in sites(f.node, lambda n: isinstance(n, ast.Call) and call_name(n) == "reduce"):
+            c = s_.node
+            recv = dotted(c.func.value) if isinstance(c.func, ast.Attribute) else None
+            lv = [dotted(t) for t, it in s_.loops if dotted(it) == ev]
+            rc.ob(f"_get_factor: `{norm(c, 80)}` on {recv} in loop over {lv}")
+            if recv not in pn:
+                rc.fail(f, c, "evidence must be reduced on the freshly built product (a stored clique potential would be edited)", construct="_get_factor reduces the product")
+            elif not lv or tm.is_(c, f"{recv}.reduce([({lv[-1]}, {ev}[{lv[-1]}])])") is None:
+                rc.fail(f, c, "each observed variable is reduced to its own observed state", construct="_get_factor pairs variable and state")
+            elif not any(pol and tm.is_(t, f"{lv[-1]} in {recv}.scope()") is not None for t, pol in s_.conds):
+                rc.fail(f, c, "only variables of the product's scope can be reduced", construct="_get_factor scope guard")
+        rv = [x.value for x in returns_of(f) if x.value is not None]
+        if not rv or any(dotted(v) not in pn for v in rv):
+            rc.fail(f, f.node, "_get_factor returns the (reduced) product", construct="_get_factor returns the product")
+
+
 @rule("C17.engines", "a fresh BeliefPropagation per slice; BeliefPropagation copies the junction tree it is given", floor=3)
 def engines(rc):
     repo = rc.repo
@@ -353,6 +416,19 @@ def defuse(rc):
 _BW_MERGE = "            if evidence_time:\n                evidence_time.update(interface_nodes_dict)\n            mid_bp = BeliefPropagation(self.one_and_half_junction_tree)\n            self._update_belief(mid_bp, self.in_clique, potential_dict[time_slice - 1])"
 
 MUTANTS = [
+    dict(kind="break", name="get-clique-subset-flipped", file=DI, expect="C17.helpers",
+         old="if set(nodes).issubset(clique)", new="if set(clique).issubset(nodes)"),
+    dict(kind="break", name="get-clique-last", file=DI, expect="C17.helpers",
+         old="if set(nodes).issubset(clique)\n        ][0]", new="if set(nodes).issubset(clique)\n        ][-1]" ),
+    dict(kind="break", name="marginalize-keeps-complement", file=DI, expect="C17.helpers",
+         old="marginalizing_nodes = list(set(factor.scope()).difference(nodes))", new="marginalizing_nodes = list(set(factor.scope()).intersection(nodes))"),
+    dict(kind="break", name="get-factor-first-potential-only", file=DI, expect="C17.helpers",
+         old="final_factor = factor_product(*belief_prop.junction_tree.get_factors())", new="final_factor = belief_prop.junction_tree.get_factors()[0]"),
+    dict(kind="twin", name="marginalize-set-minus", file=DI,
+         old="marginalizing_nodes = list(set(factor.scope()).difference(nodes))", new="marginalizing_nodes = list(set(factor.scope()) - set(nodes))"),
+    dict(kind="twin", name="get-clique-next", file=DI,
+         old="        return [\n            clique for clique in junction_tree.nodes() if set(nodes).issubset(clique)\n        ][0]",
+         new="        return next(clique for clique in junction_tree.nodes() if set(nodes).issubset(clique))"),
     dict(kind="break", name="horizon-from-max-tuple", file=DI, expect="C17.slices",
          old="            evid_time_range = max([time_slice for var, time_slice in evidence.keys()])\n            time_range = max(time_range, evid_time_range)\n\n        start_bp",
          new="            evid_time_range = max(evidence)[1]\n            time_range = max(time_range, evid_time_range)\n\n        start_bp"),
